@@ -14,7 +14,7 @@ Inductive tref :=
 | RList (t : tref)
 | RNonNull (t : tref).
 
-Record iarg := { ia_name : string; ia_type : tref; ia_has_default : bool }.
+Record iarg := { ia_name : string; ia_type : tref; ia_default : option lit }.   (* the declared default value *)
 Record ifield := { if_name : string; if_args : list iarg; if_type : tref; if_deprecated : bool }.
 Record itype := {
   it_kind : string; it_name : string;
@@ -52,8 +52,7 @@ Definition deprecated (tn m : string) : bool := mem_str "deprecated" (member_dir
 Definition hidden (tn m : string) : bool := mem_str "nonIntrospectable" (member_dirs tn m).
 
 Definition arg_of (a : input_def) : iarg :=
-  {| ia_name := in_name a; ia_type := ref_of (in_type a);
-     ia_has_default := match in_default a with Some _ => true | None => false end |}.
+  {| ia_name := in_name a; ia_type := ref_of (in_type a); ia_default := in_default a |}.
 
 (* the `fields` list filled by bake_fields: declaration order, injected `__` fields left out; the
    introspection directives executor drops what @nonIntrospectable hides *)
@@ -106,8 +105,37 @@ Fixpoint tref_eqb (a b : tref) : bool :=
   | RList x, RList y | RNonNull x, RNonNull y => tref_eqb x y
   | _, _ => false
   end.
+(* the same GraphQL value, source positions aside *)
+Fixpoint lit_same (a b : lit) {struct a} : bool :=
+  match a, b with
+  | LVar _ x, LVar _ y => String.eqb x y
+  | LInt _ v, LInt _ w | LFloat _ v, LFloat _ w => pyval_eqb v w
+  | LStr _ s, LStr _ t | LEnum _ s, LEnum _ t => String.eqb s t
+  | LBool _ x, LBool _ y => Bool.eqb x y
+  | LNull _, LNull _ => true
+  | LList _ xs, LList _ ys =>
+      (fix go (l m : list lit) : bool :=
+         match l, m with
+         | [], [] => true
+         | x :: l', y :: m' => lit_same x y && go l' m'
+         | _, _ => false
+         end) xs ys
+  | LObj _ fs, LObj _ gs =>
+      (fix go (l m : list (string * lit)) : bool :=
+         match l, m with
+         | [], [] => true
+         | (k, x) :: l', (k', y) :: m' => String.eqb k k' && lit_same x y && go l' m'
+         | _, _ => false
+         end) fs gs
+  | _, _ => false
+  end.
+
+Definition opt_lit_same (a b : option lit) : bool :=
+  match a, b with None, None => true | Some x, Some y => lit_same x y | _, _ => false end.
+
+(* defaultValue is compared as a VALUE: what the engine prints, parsed back, is the declared default *)
 Definition iarg_eqb (a b : iarg) : bool :=
-  String.eqb (ia_name a) (ia_name b) && tref_eqb (ia_type a) (ia_type b) && Bool.eqb (ia_has_default a) (ia_has_default b).
+  String.eqb (ia_name a) (ia_name b) && tref_eqb (ia_type a) (ia_type b) && opt_lit_same (ia_default a) (ia_default b).
 Fixpoint list_eqb {A} (eqb : A -> A -> bool) (a b : list A) : bool :=
   match a, b with
   | [], [] => true
